@@ -232,18 +232,20 @@ let () =
     match sx with
     | [L [A "up"; transport; chunks; close; rd; eof; dec; variant]; obs] ->
       upload transport chunks close rd eof dec variant obs
-    | [L [A "upx"; transport; chunks; rd; eof; dec; cx]; L [A "xobs"; cl; dr; first; leak; hang]] ->
+    | [L [A "upx"; transport; chunks; rd; eof; dec; cx]; L [A "xobs"; cl; dr; first; leak; hang; cr; sent]] ->
       let o = { x_close = result_of cl; x_do = result_of dr; x_do_first = bool_ first;
-                x_leak = bool_ leak; x_hang = bool_ hang } in
+                x_leak = bool_ leak; x_hang = bool_ hang; x_create = result_of cr; x_sent = bool_ sent } in
+      let dead = (cx = A "pre") in
+      if o.x_create <> None then bump "upx_create_refused";
       bump ("upx_transport_" ^ atom transport);
       bump ("upx_cancel_" ^ (match cx with A a -> a | L (A a :: _) -> a | _ -> "?"));
       bump ("upx_close_" ^ (match o.x_close with Some (RHttp st) -> Printf.sprintf "http%dxx" (int_of_n st / 100) | r -> show_result r));
       ignore (rd, eof, dec);
       if list chunks <> [] then note_nontrivial (show (L [A "upx"; transport; chunks; rd; eof; dec; cx]));
-      let ok = xspec_ok o in
-      verdict ~agree:ok ~spec:ok ~kf:"-"
-        ~detail:(Printf.sprintf "Close returned %s, Do returned %s, Do had %sreturned when Close did"
-                   (show_result o.x_close) (show_result o.x_do) (if o.x_do_first then "" else "NOT "))
+      verdict ~agree:(xmodel_agrees o) ~spec:(xspec_ok dead o) ~kf:"-"
+        ~detail:(Printf.sprintf "Create returned %s; Close returned %s, Do returned %s, Do had %sreturned when Close did; request sent: %b"
+                   (match o.x_create with None -> "a writer" | r -> "the error " ^ show_result r)
+                   (show_result o.x_close) (show_result o.x_do) (if o.x_do_first then "" else "NOT ") o.x_sent)
     | [L [A "conc"; A "race"]; L (A "cobs" :: _ :: _ :: A r :: _)] ->
       (* thorough tier: the conc workload re-run in a child built with -race *)
       bump ("race_soak_" ^ r);
